@@ -14,6 +14,7 @@ import (
 
 	"github.com/insomniacslk/dhcp/dhcpv6"
 	"github.com/insomniacslk/dhcp/dhcpv6/nclient6"
+	"verif/harness/cli"
 	"verif/harness/mon"
 	"verif/harness/ref6"
 	"verif/harness/sconn"
@@ -25,6 +26,7 @@ type scenario6 struct {
 	OnSolicit []reaction `json:"on_solicit"`
 	OnRequest []reaction `json:"on_request"`
 	V6        bool       `json:"v6"`
+	Cfg       int        `json:"cfg"` // client logging configuration (cli.LogOpts6)
 }
 
 var solKinds = []string{"advertise", "advertise", "advertise-wrongxid", "reply", "reply-wrongxid", "undecodable", "advertise-nosid", "relay-typed", "silence"}
@@ -204,7 +206,9 @@ func run6(t *testing.T, sc scenario6) (o out6) {
 				}
 			}
 		}()
-		c, err := nclient6.NewWithConn(conn, mac, nclient6.WithTimeout(T), nclient6.WithRetry(2))
+		restore := cli.QuietStderr()
+		c, err := nclient6.NewWithConn(conn, mac, append([]nclient6.ClientOpt{nclient6.WithTimeout(T), nclient6.WithRetry(2)}, cli.LogOpts6(sc.Cfg)...)...)
+		restore()
 		if err != nil {
 			t.Fatal(err)
 		}
@@ -354,7 +358,7 @@ func kind6(in *inj6) string {
 }
 
 func gen6s(rng *rand.Rand) scenario6 {
-	sc := scenario6{Rapid: rng.IntN(2) == 0, V6: true}
+	sc := scenario6{Rapid: rng.IntN(2) == 0, V6: true, Cfg: rng.IntN(cli.NCfg)}
 	for i := 0; i < rng.IntN(4); i++ {
 		sc.OnSolicit = append(sc.OnSolicit, reaction{solKinds[rng.IntN(len(solKinds))], []int{0, 0, 1, 50, 99, 101, 250}[rng.IntN(7)]})
 	}
